@@ -20,6 +20,7 @@ NEWPOOL_Q = [S([]), S([120]), S([120, 121]), F([]), F([[[], [0] * 8]]), F([[[120
 
 class C09(PureCheck):
     pid = "C09"
+    subst_every = 6
     warm_every = 3
     rule = ("f in Layouts(R,2) (all run lists of <=R runs of length 0..2 over {a,b} x 3 attribute records, empty runs "
             "included), new in a pool of str/FmtStr values (empty, multi-run, leading empty run), every 0<=start<=end<=len+2 "
